@@ -137,6 +137,11 @@ func VerifyJSON(signingName string, keyID KeyID, publicKey ed25519.PublicKey, me
 		return err
 	}
 
+	// ed25519.Verify panics if it is given a key of the wrong length.
+	if len(publicKey) != ed25519.PublicKeySize {
+		return fmt.Errorf("Bad public key length for %q with ID %q", signingName, keyID)
+	}
+
 	// Verify the ed25519 signature.
 	if !ed25519.Verify(publicKey, canonical, signature) {
 		return fmt.Errorf("Bad signature from %q with ID %q", signingName, keyID)
